@@ -21,6 +21,7 @@ mod c03;
 mod c16;
 mod c18;
 mod c19;
+mod cfg;
 mod c20;
 mod gen;
 mod dicts;
@@ -56,6 +57,7 @@ fn main() {
         "c03-single" => c03::single(rest),
         "c02-usercost" => c02::usercost(rest),
         "c18-run" => c18::run(rest),
+        "cfg-replay" => cfg::replay(rest),
         "c19-world" => c19::world(rest),
         "c19-lib" => c19::lib(rest),
         "c16-run" => c16::run(rest),
